@@ -60,6 +60,7 @@ fam({'C17': ('main', 'all')},
     driver='worker', tv='WorkerTV', mc_quick=[('WorkerL2', 'WorkerL2')], mc_thorough=[('WorkerL2', 'WorkerL2_big')],
     n=(80, 300, 2000, 6000))
 F['C17'] = dict(F['C17'], l2gate=dict(driver='worker', tv='WorkerL2TV', n=(100, 1500)))
+F['C14'] = dict(F['C14'], l2gate=dict(driver='workers', tv='WorkersL2TV', n=(60, 1000)))
 fam({'C09': ('keys', 'all'), 'C10': ('main', 'all')},
     driver='exclusive', tv='ExclusiveTV',
     mc_quick=[('ExclusiveL2', 'ExclusiveL2'), ('ExclusiveL2', 'ExclusiveL2_neg'), ('ExclusiveL2', 'ExclusiveL2_witness')],
